@@ -1,59 +1,16 @@
 //! scratch probes (not registered)
 use crate::sym::{Inp, Src};
-use chumsky::prelude::*;
-use crate::errs::{TagErr, MkErr};
+use crate::refsem::{self, Cnt, Env, G};
 #[cfg(kani)]
 #[kani::proof]
 #[kani::unwind(6)]
-pub fn probe_x1() {
-    let s = &mut crate::sym::KaniSrc;
-    let t: [u8; 1] = [s.u8()];
-    let inp = Inp::<3>::any(s);
-    let x = inp.get();
-    let p = just::<u8, &[u8], extra::Err<TagErr>>(t[0]).then(any()).validate(|o, e, em| { let sp: SimpleSpan = e.span(); em.emit(TagErr::new(1, sp)); em.emit(TagErr::new(2, sp)); o });
-    let r = p.parse(x);
-    let (out, errs) = r.into_output_errors();
-    if out.is_some() {
-        kani::assert(errs.len() == 2, "n");
-        if errs.len() == 2 {
-            kani::assert(errs[0].0 & 0xff == 1, "id0");
-            kani::assert(errs[1].0 & 0xff == 2, "id1");
-        }
-    }
-}
-#[cfg(kani)]
-#[kani::proof]
-#[kani::unwind(6)]
-pub fn probe_x2() {
-    use crate::prims::pt::*;
+pub fn probe_rec_refsem() {
     let s = &mut crate::sym::KaniSrc;
     let t: [u8; 2] = [s.u8(), s.u8()];
     let inp = Inp::<3>::any(s);
     let x = inp.get();
-    let p = then(rec_via(then(j(t[0]), j(t[1])), to_(any_(), 0xFB)), ornot(any_()));
-    let r = p.parse(x);
-    let (out, errs) = r.into_output_errors();
-    if out.is_some() && errs.len() > 0 {
-        kani::assert(errs.len() == 1, "n");
-        kani::assert(errs[0].0 & 0xff == 0xEE, "id0");
-        kani::assert(errs[0].start() <= 1, "pos");
-    }
-}
-#[cfg(kani)]
-#[kani::proof]
-#[kani::unwind(6)]
-pub fn probe_x3() {
-    use crate::prims::pt::*;
-    let s = &mut crate::sym::KaniSrc;
-    let t: [u8; 2] = [s.u8(), s.u8()];
-    let inp = Inp::<3>::any(s);
-    let x = inp.get();
-    let p = then(rec_via(then(j(t[0]), j(t[1])), to_(any_(), 0xFB)), ornot(val(any_(), 3)));
-    let r = p.parse(x);
-    let (out, errs) = r.into_output_errors();
-    if out.is_some() && errs.len() > 1 {
-        kani::assert(errs.len() == 2, "n");
-        kani::assert(errs[0].0 & 0xff == 0xEE, "id0");
-        kani::assert(errs[1].0 & 0xff == 3, "id1");
-    }
+    const AST: G = G::Then(&G::Span(&G::RecVia(&G::Tag(1, &G::Then(&G::Just(0), &G::Just(1))), &G::Span(&G::To(&G::Any, 251)))), &G::Span(&G::Rest));
+    let mut env = Env::new(x, &t);
+    let e = refsem::parse(&AST, &mut env);
+    kani::cover!(e.is_some() && env.n_emis == 1);
 }
